@@ -3,5 +3,20 @@ Q_DEV = {"quick": ["dev"], "thorough": ["dev"]}
 Q_DEV_T_BOTH = {"quick": ["dev"], "thorough": ["dev", "nodebug"]}
 
 PROPS = {
+    "C02": {"kani": [], "wmm": True},
+    "C06": {"kani": [{"module": "c06", "profiles": Q_DEV_T_BOTH}]},
+    "C07": {"kani": [{"module": "c07", "profiles": Q_DEV_T_BOTH}]},
+    "C14": {"kani": [{"module": "c14", "profiles": Q_DEV}]},
+    "C15": {"kani": [{"module": "c15", "profiles": Q_DEV_T_BOTH}]},
+    "C17": {"kani": [{"module": "c17", "profiles": Q_DEV}]},
+    "C10": {"kani": [{"module": "c10", "profiles": Q_DEV_T_BOTH}]},
+    "C11": {"kani": [{"module": "c11", "profiles": Q_DEV}]},
+    "C12": {"kani": [{"module": "c12", "profiles": Q_DEV}]},
+    "C05": {"kani": [{"module": "c05", "profiles": Q_DEV_T_BOTH}]},
+    "C04": {"kani": [{"module": "c04", "profiles": Q_DEV}]},
+    "C03": {"kani": [{"module": "c03", "profiles": Q_DEV_T_BOTH}], "wmm": True},
+    "C08": {"kani": [{"module": "c08", "profiles": Q_DEV_T_BOTH}], "wmm": True},
+    "C09": {"kani": [{"module": "c09", "profiles": Q_DEV_T_BOTH}], "wmm": True},
+    "C01": {"kani": [{"module": "c01", "profiles": Q_DEV}]},
     "C16": {"kani": [{"module": "c16", "profiles": Q_DEV_T_BOTH}]},
 }
